@@ -66,7 +66,7 @@ func (c *Ctx) Fail(sig string, detail string, replay interface{}) {
 	if c.nfail > 200 {
 		return
 	}
-	b, _ := json.Marshal(map[string]interface{}{"sig": sig, "detail": detail, "replay": replay})
+	b, _ := json.Marshal(map[string]interface{}{"sig": sig, "detail": detail, "replay": replay, "at": c.nops})
 	c.oracle.Write(b)
 	c.oracle.WriteByte('\n')
 }
